@@ -150,6 +150,8 @@ pub struct StatVals<T: Sc> {
     pub clone_lin_var: Result<DVector<T>, String>,
     pub clone_nonlin_var: Result<DVector<T>, String>,
     pub clone_chi2: T,
+    /// `correlation_matrix()` (the older accessor) next to `calculate_correlation_matrix()`
+    pub correlation_alias: DMatrix<T>,
     pub stats: Box<dyn Fn(T) -> Result<DVector<T>, String> + Send>,
 }
 
@@ -170,6 +172,10 @@ pub trait DynP<T: Sc>: Send {
     fn into_any(self: Box<Self>) -> Box<dyn std::any::Any>;
     fn minimize_raw(self: Box<Self>, lm: LevenbergMarquardt<T>) -> (Box<dyn DynP<T>>, String, usize, T);
     fn to_seq(self: Box<Self>) -> Box<dyn DynP<T>>;
+    /// `into_parallel()` (which, like `into_sequential`, yields the sequential type)
+    fn to_par(self: Box<Self>) -> Box<dyn DynP<T>>;
+    /// `Clone` of the problem (only possible for the clonable harness models)
+    fn try_clone(&self) -> Option<Box<dyn DynP<T>>>;
 }
 
 fn fit_out<T: Sc, const MRHS: bool>(ok: bool, r: FitResult<WM<T>, MRHS>, coef: Option<DMatrix<T>>, best: Option<DMatrix<T>>, calls: usize) -> FitOut<T>
@@ -269,6 +275,15 @@ macro_rules! impl_dynp {
             fn to_seq(self: Box<Self>) -> Box<dyn DynP<T>> {
                 Box::new((*self).into_sequential())
             }
+            fn to_par(self: Box<Self>) -> Box<dyn DynP<T>> {
+                Box::new((*self).into_parallel())
+            }
+            fn try_clone(&self) -> Option<Box<dyn DynP<T>>> {
+                match guarded(|| self.clone()) {
+                    Ok(p) => Some(Box::new(p)),
+                    Err(_) => None,
+                }
+            }
         }
     };
     (@stats false, $self:ident, $lm:ident) => {{
@@ -344,7 +359,10 @@ fn stat_vals<T: Sc>(st: FitStatistics<WM<T>>) -> StatVals<T> {
     #[allow(deprecated)]
     let corr = st.calculate_correlation_matrix();
     let st2 = st.clone();
+    #[allow(deprecated)]
+    let corr_alias = st.correlation_matrix();
     StatVals {
+        correlation_alias: corr_alias,
         clone_covariance: st2.covariance_matrix().clone(),
         clone_lin_var: guarded(|| st2.linear_coefficients_variance()),
         clone_nonlin_var: guarded(|| st2.nonlinear_parameters_variance()),
